@@ -93,6 +93,16 @@ func fileFixtures(r *rand.Rand, thorough bool) []*fileFixture {
 			hand(o, 43)
 		}
 	}
+	{
+		// an empty chunk in the middle (declared block size 0)
+		st := store.New()
+		content := []byte("hello world")
+		root, _ := handFile(st, [][]byte{[]byte("hello "), {}, []byte("world")}, handFileOpts{Width: 3, PBLeaves: true, LeafType: 2})
+		out = append(out, mkFixture("hand-emptychunk-pb", st, root, content))
+		st2 := store.New()
+		root2, _ := handFile(st2, [][]byte{[]byte("hel"), []byte("lo "), {}, []byte("wor"), {}, []byte("ld")}, handFileOpts{Width: 2, PBLeaves: false})
+		out = append(out, mkFixture("hand-emptychunk-raw", st2, root2, content))
+	}
 	if thorough {
 		build("default-width-349", 174, "size-1", 349, "rand")
 		build("rabin", 3, "rabin-16-32-64", 700, "rand")
